@@ -27,3 +27,17 @@ package plugin
 //@   at-call ReplaceAllString as strip: assert [then-strip-invalid-characters] called(low) && arg0 == InvalidIdentifierRegex && streq(arg1, res(low)) && streq(arg2, "")
 //@   ensures [a-namespaced-name-is-kept] called(colon) && (res(colon) ==> streq(result, name))
 //@   ensures [legacy-prefix-on-the-stripped-lower-case-name] called(strip) ==> streq(result, "legacy:" + res(strip))
+
+// Classification of (un)register messages (C25: which messages raise a channel-register event): a register message is one
+// on "REGISTER" (legacy) or "minecraft:register", compared case-insensitively; an unregister message is one on
+// "UNREGISTER" or "minecraft:unregister".
+//@ func IsRegister
+//@   props C25
+//@   at-call EqualFold#1 as legacy: assert streq(arg0, p.Channel) && streq(arg1, "REGISTER")
+//@   at-call EqualFold#2 as modern: assert streq(arg0, p.Channel) && streq(arg1, "minecraft:register")
+//@   ensures [register-names-only] result == (p != nil && ((called(legacy) && res(legacy)) || (called(modern) && res(modern))))
+//@ func IsUnregister
+//@   props C25
+//@   at-call EqualFold#1 as legacy: assert streq(arg0, p.Channel) && streq(arg1, "UNREGISTER")
+//@   at-call EqualFold#2 as modern: assert streq(arg0, p.Channel) && streq(arg1, "minecraft:unregister")
+//@   ensures [unregister-names-only] result == (p != nil && ((called(legacy) && res(legacy)) || (called(modern) && res(modern))))
